@@ -170,7 +170,14 @@ class Interp(HeapMixin, OpsMixin, StmtMixin, CallMixin):
                 return SetRec(None, ty[1], z3.Array(name + "#dom", self.sort_of(ty[1]), z3.BoolSort()), sym=name,
                               size=z3.Int(name + "#size"))
             ref = self.sym_ref(name, "set", None, mk)
-            run.assume(z3.Int(name + "#size") >= 0)
+            sz = z3.Int(name + "#size")
+            run.assume(sz >= 0)
+            es = self.sort_of(ty[1])
+            dom = z3.Array(name + "#dom", es, z3.BoolSort())
+            x = z3.Const("x!mem", es)
+            w = z3.Const(name + "#witness", es)
+            run.assume(z3.ForAll([x], z3.Implies(z3.Select(dom, x), sz > 0)))      # emptiness agrees with membership
+            run.assume(z3.Implies(sz > 0, z3.Select(dom, w)))
             return ref
         if k == "callback":
             return VCallback(name, self.cb_spec(name))
